@@ -19,8 +19,30 @@ def setup(ctx):
     hooks.RATE = 50
 
 
+WRONG = {"int": 7, "negint": -3, "bool": True, "float": 2.5, "str": "abc", "char": "x", "digits": "12", "hex": "0A1B",
+         "empty-str": "", "list-int": [1, 2], "list-float": [1.5, 2.0], "list-str": ["a"], "empty-list": [],
+         "dict": {"a": 1}, "nested": [[1], {"b": None}], "tuple": (1, 2), "bytes": b"\x01\x02", "set": {1},
+         "bigint": 2 ** 70, "none-in-list": [None], "bytearray": "BYTEARRAY", "numarray": "NUMARRAY", "object": "OBJECT"}
+
+
+def wrong_value(name):
+    if name == "bytearray":
+        return gfapy.ByteArray([1, 2, 255])
+    if name == "numarray":
+        return gfapy.NumericArray([1, 2, 300])
+    if name == "object":
+        return object()
+    return WRONG[name]
+
+
 def cases(rng, tier, shard, nshards):
     while True:
+        if rng.random() < 0.12:
+            # a Python value of any class offered to each declared datatype
+            yield {"kind": "anyclass", "value": rng.choice(sorted(WRONG)), "dt": rng.choice("AifZJHB"), "good": None,
+                   "how": rng.choice(["set", "attr"]), "carrier": rng.randrange(len(CARRIERS)),
+                   "vlevel": rng.choice([0, 1, 2, 3]), "tag": V.tagname(rng)}
+            continue
         kind = rng.choice(KINDS)
         good = rng.random() < 0.6
         if good:
@@ -81,7 +103,52 @@ def equal(kind, a, b):
     return a == b and type(a) == type(b) if kind in ("int", "str", "char") else a == b
 
 
+def run_anyclass(case, ctx):
+    """every outcome is fine but two: an exception which is not a gfapy.Error, and a value which
+    passes validation and is then written as text that does not match the grammar of the datatype
+    (or that cannot be read back)."""
+    vlevel, tag, dt = case["vlevel"], case["tag"], case["dt"]
+    line = gfapy.Line(CARRIERS[case["carrier"]][0], vlevel=vlevel)
+    v = wrong_value(case["value"])
+    cell = "%s<-%s" % (dt, case["value"])
+    ctx.add("anyclass_cells", cell)
+    ctx.count("anyclass_assignments")
+    ctx.nontriv(["anyclass", cell, vlevel, case["how"], case["carrier"]])
+
+    def assign():
+        line.set_datatype(tag, dt)
+        if case["how"] == "attr":
+            setattr(line, tag, v)
+        else:
+            line.set(tag, v)
+    steps = [("set", assign), ("validate_field", lambda: line.validate_field(tag)), ("validate", line.validate),
+             ("field_to_s", lambda: line.field_to_s(tag, True)), ("str", lambda: str(line))]
+    written = None
+    for name, fn in steps:
+        r = call(ctx, "%s (value of class %s for %s)" % (name, case["value"], dt), fn)
+        if r.kind == "foreign":
+            ctx.violation("foreign-exception/%s/%s/%s" % (name, dt, r.cls()),
+                          "%s at level %d: %s raised %s: %s" % (cell, vlevel, name, r.cls(), str(r.exc)[:200]))
+            return
+        if not r.ok:
+            ctx.count("anyclass_reported")
+            return
+        if name == "field_to_s":
+            written = r.value
+    ctx.count("anyclass_accepted")
+    m = S.TAGRE.fullmatch(written or "")
+    if not m or m.group(1) != tag or S.tag_value_verdict(m.group(2), m.group(3))[0] == S.INVALID:
+        ctx.violation("unvalidated-value-written-malformed/%s/%s" % (dt, case["value"]),
+                      "%s at level %d passes validation and is written as %r" % (cell, vlevel, written))
+        return
+    pr = call(ctx, "Line(str(line))", gfapy.Line, str(line), vlevel=1)
+    if not pr.ok:
+        ctx.violation("written-line-unparsable/anyclass/%s" % pr.cls(), "%s: %r" % (cell, str(line)))
+
+
 def run(case, ctx):
+    if case["kind"] == "anyclass":
+        return run_anyclass(case, ctx)
     kind, good, vlevel, tag = case["kind"], case["good"], case["vlevel"], case["tag"]
     text, _ = CARRIERS[case["carrier"]]
     line = gfapy.Line(text, vlevel=vlevel)
